@@ -66,6 +66,9 @@ _OOO_NAMESPACES = {
 }
 _NUMBER_COLUMNS_REPEATED = "{" + _OOO_NAMESPACES["table"] + "}number-columns-repeated"
 _NUMBER_ROWS_REPEATED = "{" + _OOO_NAMESPACES["table"] + "}number-rows-repeated"
+_TABLE_CELL = "{" + _OOO_NAMESPACES["table"] + "}table-cell"
+#: A cell covered by a merged cell to its left or above it.
+_TABLE_COVERED_CELL = "{" + _OOO_NAMESPACES["table"] + "}covered-table-cell"
 _TABLE_ROW = "{" + _OOO_NAMESPACES["table"] + "}table-row"
 #: Elements of a ``table:table`` that can contain ``table:table-row`` elements (or again such elements).
 _TABLE_ROW_CONTAINERS = tuple(
@@ -335,7 +338,9 @@ def ods_rows(source_ods_path, sheet=1):
                 location,
             )
         row = []
-        for table_cell in _findall(table_row, "table:table-cell", namespaces=_OOO_NAMESPACES):
+        for table_cell in table_row:
+            if table_cell.tag not in (_TABLE_CELL, _TABLE_COVERED_CELL):
+                continue
             repeated_text = table_cell.attrib.get(_NUMBER_COLUMNS_REPEATED, "1")
             try:
                 repeated_count = int(repeated_text)
